@@ -483,16 +483,22 @@ def sys_errors():
             return base + [['raise']]
         if kind == 'retexc':
             return base + [['ret', 'exc']]
+        if kind == 'raise_ce':              # CancelledError raised by the handler's own code, nobody cancelled it (finding G8, repaired)
+            return base + [['raise', 'ce']]
+        if kind == 'raise_ce_after_sleep':
+            return base + [['s', 2], ['raise', 'ce']]
         return base + [['s', 2], ['raise', 'rt']]
-    for k1, k2, k3, sync2, child_kind, fw, par in itertools.product(kinds, kinds, ['ok', 'raise'], [False, True], ['none', 'ok', 'raise'],
-                                                                    [False, True], [False, True]):
+    for k1, k2, k3, sync2, child_kind, fw, par in itertools.product(kinds + ['raise_ce', 'raise_ce_after_sleep'], kinds + ['raise_ce'], ['ok', 'raise'], [False, True],
+                                                                    ['none', 'ok', 'raise', 'raise_ce'], [False, True], [False, True]):
         if sync2 and k2 == 'raise_after_sleep':
+            continue
+        if child_kind == 'raise_ce' and k1 in ('retexc', 'raise_after_sleep'):
             continue
         extra1 = []
         if child_kind != 'none':
             extra1 = [['d', 'b2' if fw else 'b1', 'C'], ['a', 0]]
-        scripts = {'H1': {'R': ops(k1, extra1), 'L': []}, 'H2': {'R': ops(k2)}, 'H3': {'R': ops(k3), 'C': ops('ok' if child_kind != 'raise' else 'raise'), 'L': []},
-                   'HB': {'R': ops(k3), 'C': ops('ok' if child_kind != 'raise' else 'raise')}}
+        scripts = {'H1': {'R': ops(k1, extra1), 'L': []}, 'H2': {'R': ops(k2)}, 'H3': {'R': ops(k3), 'C': ops(child_kind if child_kind in ('raise', 'raise_ce') else 'ok'), 'L': []},
+                   'HB': {'R': ops(k3), 'C': ops(child_kind if child_kind in ('raise', 'raise_ce') else 'ok')}}
         handlers = [typed('b1', 'R', 'H1', hid='h1'), typed('b1', 'R', 'H2', 'sync' if sync2 else 'async', hid='h2'), wild('b1', 'H3', hid='h3'),
                     wild('b2', 'HB', hid='hb')]
         if fw:
